@@ -242,8 +242,9 @@ func tAfterName(c context, s []byte) (context, int) {
 		c.state = stateTag
 		return c, i
 	}
-	if strings.Trim(c.attr.name, "/") == "" {
-		// e.g. `<a /="x">`: a "/" is not an attribute name; for an HTML parser the "=" starts one.
+	if strings.HasSuffix(c.attr.name, "/") {
+		// e.g. `<a /="x">` or `<a b/="x">`: a "/" ends the attribute name before it, and for an
+		// HTML parser the "=" that follows starts a new one.
 		return context{
 			state: stateError,
 			err:   errorf(ErrBadHTML, nil, 0, `"=" after "/" in a tag: %.32q`, s),
